@@ -74,6 +74,7 @@ def run(seed):
     from . import fam_import
     scn = fam_import._scenarios(ctx, [("GenImportClosure3.cfg", 60, 1)], free_every=0)
     events, _ = core.vh(ctx, "importclosure", scn)
+    events = [e for e in events if e["e"] != "start"]
     ok &= _case(ctx, "importclosure", "ImportClosureTrace", "ImportClosureTrace.cfg", events, [
         ("returned order reversed", _set("processed", lambda v: list(reversed(v)) if len(v) > 1 else None, "ret")),
         ("a read event deleted", _drop("read")),
